@@ -130,6 +130,17 @@ def scope_worker(arg):
         status, res, _ = dsdlio.read_ns(tr.path("vnd"), allow_unregulated=True)
         if status != "ok":
             diff.append(("subject and service sharing a number rejected", str(res)[:200]))
+    # (d) two files of one name and version that differ in layout (and port-ID / suffix): never both honoured, never one dropped
+    for fs in ({"vnd/7000.Foo.1.0.dsdl": "uint8 a\n@sealed\n", "vnd/7001.Foo.1.0.dsdl": "uint16 a\n@sealed\n"},
+               {"vnd/Foo.1.0.dsdl": "uint8 a\n@sealed\n", "vnd/Foo.1.0.uavcan": "uint16 a\n@sealed\n"},
+               {"vnd/300.Srv.1.0.dsdl": "uint8 a\n@sealed\n---\n@sealed\n", "vnd/301.Srv.1.0.dsdl": "uint16 a\n@sealed\n---\n@sealed\n"},
+               {"vnd/7000.Foo.1.0.dsdl": "uint8 a\n@sealed\n", "vnd/Foo.1.0.dsdl": "uint8 a\n@extent 64\n", "vnd/Bar.1.0.dsdl": "@sealed\n"},
+               {"vnd/7000.Foo.1.1.dsdl": "uint8 a\n@sealed\n", "vnd/7001.Foo.1.1.dsdl": "uint8 a\nuint8 b\n@sealed\n", "vnd/Foo.1.0.dsdl": "uint8 a\n@sealed\n"}):
+        with dsdlio.Tree(fs, "c11s") as tr:
+            status, res, _ = dsdlio.read_ns(tr.path("vnd"), allow_unregulated=True)
+            if not (status == "err" and isinstance(res, pydsdl.InvalidDefinitionError)):
+                diff.append(("two files of one name and version with different layouts accepted", sorted(fs),
+                             [str(t.source_file_path.name) for t in res] if status == "ok" else type(res).__name__))
     r = {"nt": True, "key": "scope%d" % k}
     if diff:
         r["bad"] = {"kind": "crossdef-scope", "case": "scopes", "diff": diff}
